@@ -34,7 +34,7 @@ PROPS = {
                 rule="repeated honest executions with taps; balance of revealed^others for input 0 and 1 (6 sigma), fresh delta and mask vector per party and run, 128-bit canary; distinct by run"),
     "C07": dict(modules=["PolytuneModel.Thm.C06C07", "PolytuneModel.Thm.C07laand"], theorems=["PolytuneModel.C07_cex_laand_e_lie", "PolytuneModel.C07_mac_view_independent", "PolytuneModel.C07_ashare_opening_independent", "PolytuneModel.C07_cex_ashare_offset", "PolytuneModel.C07_peers_can_compute"], drive="C07", also=["C07m"], only="C07", cases=dict(quick=100, thorough=1000),
                 rule="global key (tap) searched in all sent bytes (both byte orders) and as XOR of two aligned 128-bit fields; distinct by run"),
-    "C08": dict(also=["C08d"], modules=["PolytuneModel.Thm.C08", "PolytuneModel.Thm.Sites", "PolytuneModel.Thm.C08masked", "PolytuneModel.Thm.C08fpre", "PolytuneModel.Thm.C08roundtrip", "PolytuneModel.Thm.C08canon"], theorems=["PolytuneModel.Bincode.canon_share_msg", "PolytuneModel.Bincode.canon_vecvec_u128", "PolytuneModel.Bincode.canon_vec", "PolytuneModel.Bincode.canon_u64", "PolytuneModel.Bincode.canon_u128", "PolytuneModel.Bincode.canon_opt", "PolytuneModel.Bincode.canon_pair", "PolytuneModel.Bincode.canon_bool", "PolytuneModel.Bincode.enc_leVal", "PolytuneModel.Bincode.rt_vec", "PolytuneModel.Bincode.rt_opt", "PolytuneModel.Bincode.rt_pair", "PolytuneModel.Bincode.rt_bool", "PolytuneModel.Bincode.decU64_enc", "PolytuneModel.Bincode.decU128_enc", "PolytuneModel.Bincode.rt_share_msg", "PolytuneModel.Bincode.rt_vecvec_u128", "PolytuneModel.Bincode.rt_masked_msg", "PolytuneModel.Bincode.rt_labels_msg", "PolytuneModel.Bincode.rt_vec_on", "PolytuneModel.Bincode.rt_injective", "PolytuneModel.Bincode.encVec_injective", "PolytuneModel.Bincode.decN_enc", "PolytuneModel.FpreCheck.C08_fpre_check_no_panic", "PolytuneModel.FpreCheck.C08_fpre_cex_unguarded", "PolytuneModel.Masked.C08_masked_no_panic", "PolytuneModel.Masked.C08_cex_masked_extra_some", "PolytuneModel.Masked.merge_inRange", "PolytuneModel.C08_length_guards_present", "PolytuneModel.decVec_bounded", "PolytuneModel.decN_length", "PolytuneModel.C08_ashare_no_panic", "PolytuneModel.C08_dvalue_no_panic", "PolytuneModel.C08_cex_ashare_dm_short", "PolytuneModel.C08_cex_dvalue_short"], drive="C08", cases=dict(quick=150, thorough=1),
+    "C08": dict(also=["C08d"], modules=["PolytuneModel.Thm.C08", "PolytuneModel.Thm.Sites", "PolytuneModel.Thm.C08masked", "PolytuneModel.Thm.C08fpre", "PolytuneModel.Thm.C08roundtrip", "PolytuneModel.Thm.C08canon"], theorems=["PolytuneModel.Bincode.accept_iff", "PolytuneModel.Bincode.masked_accept_iff", "PolytuneModel.Bincode.canon_share_msg", "PolytuneModel.Bincode.canon_vecvec_u128", "PolytuneModel.Bincode.canon_vec", "PolytuneModel.Bincode.canon_u64", "PolytuneModel.Bincode.canon_u128", "PolytuneModel.Bincode.canon_opt", "PolytuneModel.Bincode.canon_pair", "PolytuneModel.Bincode.canon_bool", "PolytuneModel.Bincode.enc_leVal", "PolytuneModel.Bincode.rt_vec", "PolytuneModel.Bincode.rt_opt", "PolytuneModel.Bincode.rt_pair", "PolytuneModel.Bincode.rt_bool", "PolytuneModel.Bincode.decU64_enc", "PolytuneModel.Bincode.decU128_enc", "PolytuneModel.Bincode.rt_share_msg", "PolytuneModel.Bincode.rt_vecvec_u128", "PolytuneModel.Bincode.rt_masked_msg", "PolytuneModel.Bincode.rt_labels_msg", "PolytuneModel.Bincode.rt_vec_on", "PolytuneModel.Bincode.rt_injective", "PolytuneModel.Bincode.encVec_injective", "PolytuneModel.Bincode.decN_enc", "PolytuneModel.FpreCheck.C08_fpre_check_no_panic", "PolytuneModel.FpreCheck.C08_fpre_cex_unguarded", "PolytuneModel.Masked.C08_masked_no_panic", "PolytuneModel.Masked.C08_cex_masked_extra_some", "PolytuneModel.Masked.merge_inRange", "PolytuneModel.C08_length_guards_present", "PolytuneModel.decVec_bounded", "PolytuneModel.decN_length", "PolytuneModel.C08_ashare_no_panic", "PolytuneModel.C08_dvalue_no_panic", "PolytuneModel.C08_cex_ashare_dm_short", "PolytuneModel.C08_cex_dvalue_short"], drive="C08", cases=dict(quick=150, thorough=1),
                 rule="every adversary message index x 8 byte-level classes (sampled in quick), structure-aware classes on nested vectors, crash after k-th message; oracle: Ok or Err, no panic, no hang, no allocation > 64x bytes + 1 MiB; distinct by (victim role, phase, class, outcome)"),
     "C09": dict(modules=["PolytuneModel.Thm.C09", "PolytuneModel.Thm.C09tied"], theorems=["PolytuneModel.OnlineMsgs.C09_tied_lengths_public", "PolytuneModel.OnlineMsgs.walk_masked_regs", "PolytuneModel.C09_len_value_independent", "PolytuneModel.C09_len_formula", "PolytuneModel.C09_shares_msg", "PolytuneModel.C09_masked_msg", "PolytuneModel.C09_labels_msg", "PolytuneModel.C09_row_len"], drive="C09", also=["C01m"], cases=dict(quick=40, thorough=400),
                 rule="two executions per public configuration (different inputs and coins); per ordered pair the (phase,len) sequence vs the model's pattern of the public parameters; distinct by (circuit, p_eval, p_out)"),
